@@ -346,6 +346,62 @@ theorem C16_dummy_same_limit_equiv {α} (size : α → Nat) (max : Nat) (blobs :
     have hall := dummyScan_all_fit size max bs 0 (by omega)
     simp [dummySubmit, hd, h20, hbs, hall, clientSubmitReply, stub]
 
+/-! ## Cancellation in the middle of a call, and two callers on one client -/
+
+/-- **a cancellation crosses the wire**: when the caller gives up while the DA layer is working on the batch `bs`
+the client sent, the proxied side is indistinguishable from the in-process call on `bs`: the caller is told
+`canceled`, the DA layer learns of the cancellation, and it holds nothing afterwards — so the blob the caller
+will submit again is not already there. -/
+theorem C16_midcall_cancel_equiv {α} (size : α → Nat) (max : Nat) (blobs bs : List α) (h : Nat)
+    (hf : filterBlobs size max blobs = .send bs) :
+    let p := proxiedMidCall env size max blobs true
+    let d := directMidCall env bs true
+    (submitHelper blobs.length h p.result).code = .contextCanceled ∧
+    (submitHelper bs.length h d.result).code = .contextCanceled ∧
+    p.reached = some bs ∧ d.reached = some bs ∧
+    p.sawCancel = true ∧ d.sawCancel = true ∧ p.stored = [] ∧ d.stored = [] := by
+  have hc : remapCanceled env env.canceledTransport = env.ctxCanceled := by decide +kernel
+  have hi : env.ctxCanceled.is .ctxCanceled = true := by decide +kernel
+  simp [proxiedMidCall, directMidCall, waitingDA, hf, hc, submitHelper, hi]
+
+/-- a call that is not cancelled completes identically: same count, same contents, no cancellation seen -/
+theorem C16_midcall_complete_equiv {α} (size : α → Nat) (max : Nat) (blobs bs : List α)
+    (hf : filterBlobs size max blobs = .send bs) :
+    let p := proxiedMidCall env size max blobs false
+    let d := directMidCall env bs false
+    p.result = .ok bs.length ∧ d.result = .ok bs.length ∧ p.reached = some bs ∧
+    p.sawCancel = false ∧ d.sawCancel = false ∧ p.stored = bs ∧ d.stored = bs := by
+  simp [proxiedMidCall, directMidCall, waitingDA, hf, clientSubmitReply, stub]
+
+/-- whoever is told `canceled` finds nothing of that call on the DA layer (all inputs, cancelled or not) -/
+theorem C16_told_canceled_nothing_stored {α} (size : α → Nat) (max : Nat) (blobs : List α) (h : Nat) (mid : Bool)
+    (ht : (submitHelper blobs.length h (proxiedMidCall env size max blobs mid).result).code = .contextCanceled) :
+    (proxiedMidCall env size max blobs mid).stored = [] := by
+  cases mid with
+  | true =>
+    unfold proxiedMidCall
+    split <;> simp [waitingDA]
+  | false =>
+    unfold proxiedMidCall at ht ⊢
+    split at ht
+    · simp
+    · simp
+    · rename_i bs hf
+      simp only [waitingDA, Bool.false_eq_true, if_false, clientSubmitReply, stub, submitHelper] at ht
+      split at ht <;> simp at ht
+
+/-- **overlapping calls on one client keep their own blobs**: under every interleaving of the phases of two
+`SubmitWithOptions` calls (any schedule, any inputs), what a request carries is exactly what the same call
+sends when it is alone — the longest fitting prefix of its own caller's blobs (`C16_sends_longest_prefix`) —
+whatever the other call does in between. -/
+theorem C16_concurrent_requests_own_batch {α} (size : α → Nat) (max : Nat) (inA inB : List α) (sched : List Phase)
+    (backing : List α → Except GoErr Nat) :
+    (∀ l, (Calls.run size max inA inB sched).wireA = some l → (clientSubmit env size max inA false backing).2 = some l) ∧
+    (∀ l, (Calls.run size max inA inB sched).wireB = some l → (clientSubmit env size max inB false backing).2 = some l) := by
+  have h := callsOwn_foldl size max inA inB sched {} ⟨by simp, by simp, by simp, by simp⟩
+  obtain ⟨_, _, h3, h4⟩ := h
+  exact ⟨fun l hl => by simp [clientSubmit, h3 l hl], fun l hl => by simp [clientSubmit, h4 l hl]⟩
+
 /-! ## Non-vacuity -/
 
 /-- a batch over the limit: 5+5 fit, the third blob does not; exactly two are sent and counted -/
@@ -372,5 +428,15 @@ example : (proxiedRetrieve env false (.ok (.ids 0)) (fun _ n => .ok n)).code = .
 /-- a successful retrieval of 250 ids is fetched as 100+100+50 and returns 250 blobs on both sides -/
 example : proxiedRetrieve env false (.ok (.ids 250)) (fun _ n => .ok n) = directRetrieve env (.ok (.ids 250)) (fun _ n => .ok n) ∧
     (proxiedRetrieve env false (.ok (.ids 250)) (fun _ n => .ok n)).nblobs = 250 := by decide
+
+/-- the seeded interleaving (A packs, B runs from start to end, A sends): both requests carry their own batch -/
+example : (Calls.run id 64 [8, 8, 8] [6, 6] schedStub).wireA = some [8, 8, 8] ∧
+    (Calls.run id 64 [8, 8, 8] [6, 6] schedStub).wireB = some [6, 6] ∧
+    (Calls.run id 20 [8, 8, 8] [6, 6, 30] schedDA).wireA = some [8, 8] ∧
+    (Calls.run id 20 [8, 8, 8] [6, 6, 30] schedDA).wireB = none := by decide
+/-- cancelling in the middle: told canceled, seen by the DA layer, nothing stored — on both sides -/
+example : (proxiedMidCall env id 5 [3, 4] true).reached = some [3] ∧ (proxiedMidCall env id 5 [3, 4] true).sawCancel = true ∧
+    (proxiedMidCall env id 5 [3, 4] true).stored = [] ∧ (directMidCall env [3] true).stored = ([] : List Nat) ∧
+    (proxiedMidCall env id 5 [3, 4] false).stored = [3] := by decide
 
 end Spec.C16
